@@ -137,6 +137,39 @@ def nested_bit_fragments(rep, rng, n):
                 break
 
 
+def check_all_true_octets(rep):
+    """X.690 8.2.2: any non-zero contents octet is TRUE - all 255 of them, at top level, under an explicit tag, with an
+    over-long length, as a member of a definite and of an indefinite SEQUENCE, with and without a guiding type"""
+    from pyasn1.type import univ, namedtype, tag as ptag
+    from pyasn1.codec.ber import decoder as bdec
+    ex = univ.Boolean().subtype(explicitTag=ptag.Tag(ptag.tagClassContext, ptag.tagFormatSimple, 0))
+    rec = univ.Sequence(componentType=namedtype.NamedTypes(namedtype.NamedType('b', univ.Boolean()), namedtype.NamedType('n', univ.Integer())))
+    for octet in range(256):
+        o = bytes([octet])
+        shapes = [('top', b'\x01\x01' + o, univ.Boolean(), lambda v: v),
+                  ('long-length', b'\x01\x83\x00\x00\x01' + o, univ.Boolean(), lambda v: v),
+                  ('explicit', b'\xa0\x03\x01\x01' + o, ex, lambda v: v),
+                  ('explicit-indef', b'\xa0\x80\x01\x01' + o + b'\x00\x00', ex, lambda v: v),
+                  ('member', b'\x30\x06\x01\x01' + o + b'\x02\x01\x07', rec, lambda v: v['b']),
+                  ('member-indef', b'\x30\x80\x01\x01' + o + b'\x02\x01\x07\x00\x00', rec, lambda v: v['b'])]
+        for name, data, spec, pick in shapes:
+            for with_spec in (True, False):
+                if not with_spec and name.startswith('member'):
+                    continue
+                rep.evaluations += 1
+                rep.count('true-octets')
+                try:
+                    v, rest = bdec.decode(data, asn1Spec=spec if with_spec else None)
+                    got = (bool(pick(v)), bytes(rest))
+                except Exception as e:  # noqa
+                    got = 'ERR ' + type(e).__name__ + ': ' + str(e)[:60]
+                if got != (octet != 0, b''):
+                    rep.fail('true-octet-%s' % name, 'BOOLEAN with contents octet %02x (%s, %s guiding type): %s' % (
+                        octet, name, 'with' if with_spec else 'without', got), {'kind': 'true-octet', 'octet': octet, 'shape': name,
+                                                                               'bytes': data.hex(), 'spec': with_spec})
+                    break
+
+
 def run(rep, tier, seed):
     common.prove(rep)
     rng = common.rng_for(seed, 'C09')
@@ -146,6 +179,8 @@ def run(rep, tier, seed):
     from harness import kernels
     kernels.obligations(rep, ['decodeLength', 'decodeTag'])
     kernels.check(rep, drv, seed, 300 if tier == 'quick' else 20000, which=('decodeLength', 'decodeTag'))
+    rep.case('all TRUE octets', nontrivial=True)
+    check_all_true_octets(rep)
     n = 1200 if tier == 'quick' else 40000
     per = 3 if tier == 'quick' else 6
     rep.rule = ('generated (type, value) x random choice scripts for lean/Asn1/X690.lean berVariant: length form per element '
